@@ -189,6 +189,7 @@ type executor struct {
 	lastAlloc uint64
 	ms        runtime.MemStats
 
+	curSize       int // size of the input / encoding of the case being executed (the smallest failing one is reported)
 	lastPairRoot  *root
 	lastPairEntry string
 	lastPairKey   string
@@ -229,7 +230,8 @@ func (x *executor) checkpoint() {
 	x.fresh()
 }
 
-func (x *executor) violation(key, what string, replay interface{}, size int) {
+func (x *executor) violation(key, what string, replay interface{}) {
+	size := x.curSize
 	if v, ok := x.vidx[key]; ok {
 		v.Count++
 		if size < v.Size {
@@ -375,6 +377,7 @@ func (x *executor) roundTrip(r *root, p reflect.Value, devs []string, choices []
 		return nil, false
 	}
 	x.distinct(e1)
+	x.curSize = len(e1)
 	entries := []string{epBytes}
 	if allEntries {
 		entries = r.Entries
@@ -453,6 +456,7 @@ func (x *executor) flushBatch() {
 					x.res.MaxRatioAt = fmt.Sprintf("%s via %s: %d bytes allocated for %d input bytes (%s)", bc.root.Name, bc.entry, used, len(bc.in), bc.class)
 				}
 			}
+			x.curSize = len(bc.in)
 			if used > allocBound(bc.entry, len(bc.in)) {
 				x.violation("decode-alloc-unbounded:"+bc.root.Name, fmt.Sprintf("%s via %s: decoding %d input bytes allocates %d bytes (bound %d): %s", bc.root.Name, bc.entry, len(bc.in), used, allocBound(bc.entry, len(bc.in)), hexOf(bc.in)),
 					map[string]interface{}{"phase": "hostile", "type": bc.root.Name, "entry": bc.entry, "mutation": bc.class, "input": hexOf(bc.in), "allocated": used})
@@ -484,6 +488,7 @@ func (x *executor) hostile(r *root, ep string, fn decodeFn, class string, in []b
 		return
 	}
 	x.mark.set(id, r.Name, ep, class, in)
+	x.curSize = len(in)
 	var q reflect.Value
 	var err error
 	c := guard(func() { q, err = fn(in) })
@@ -662,6 +667,17 @@ func (x *executor) run(u *unit) *unitResult {
 		for _, ep := range r.Entries {
 			fn := makeEntry(r.T, ep)
 			shortStrings(func(in []byte) { x.hostile(r, ep, fn, "short", in) })
+			// type confusion: the prefix of every registered type, alone, with an empty value, and with that type's
+			// own valid default value, presented to this decoder
+			for _, c := range x.reg.concrete {
+				x.hostile(r, ep, fn, "foreign-prefix", append([]byte{}, c.Disfix[:]...))
+				x.hostile(r, ep, fn, "foreign-prefix", append(append([]byte{}, c.Disfix[:]...), 0x80))
+				x.hostile(r, ep, fn, "foreign-prefix", append(append([]byte{}, c.Disfix[:]...), 0xc0))
+				dp, _, _ := buildValue(x.reg, c.Type, nil)
+				if e := mustEnc(epBytesT, dp); e != nil {
+					x.hostile(r, ep, fn, "foreign-prefix", e)
+				}
+			}
 		}
 	case "replay-hostile":
 		for i := range x.roots {
